@@ -110,6 +110,10 @@ def main(pid, tier, repo, seed, replay):
                            failing_input=wit, tier=tier), open(path, "w"), indent=1)
             replay_paths.append(path)
             tail = "" if wit else " no-failing-input-found"
+            if n >= 8:
+                if n == 8:
+                    print("... %d more violations of property %s (replay files written, see evidence)" % (len(violations) - 8, pid))
+                continue
             print("VIOLATION property=%s replay=%s obligation=%s%s" % (pid, path, f["obligation"].replace(" ", "_"), tail))
     elif undecided:
         rc = 2
